@@ -72,6 +72,8 @@ def run(rep):
     from cryptoparser.tls.subprotocol import TlsHandshakeClientHello
     skipped = 0
     for c in c06.gen_cases(rep):
+        if c.get('sweep'):
+            continue           # C06's sweep over extension type numbers
         try:
             hello = c06.build_hello(c['abs'])
         except Exception:  # pylint: disable=broad-except
